@@ -46,8 +46,10 @@ TRUSTED = [
     "extraction: ExtrOcamlBasic only; ocaml/common/conv.ml + ocaml/C09/driver.ml (token parsing/printing)",
     "correspondence harness harness/c09.py (history generator, in-memory transport, ToyZlib mirror of the model's "
     "ToyMember, canonicaliser): sampled, not proved",
-    "codec laws assumed by the theorems (output cap, conservation, drained <-> no data_available, error on corrupt "
-    "input) are validated on real zlib/brotli/zstd by sampling only (suite codec_laws)",
+    "codec laws assumed by the theorems (C09_bounded: one decompress_sync(data, m) call returns at most capf(m) bytes, "
+    "capf = id for zlib/zstd and 2m+32768 for the brotli binding; C09_progress_partial: an output-less call leaves "
+    "data_available false) and the laws the oracle relies on (conservation, error on corrupt input) are validated on real "
+    "zlib/brotli/zstd by sampling only (suite laws)",
     "modelled, not verified: CPython bytes/deque/Future semantics, asyncio task scheduling (the reader task is "
     "run to quiescence after every stimulus on the virtual-time loop), the C codecs; message heads and trailer "
     "fields are outside the model (C01/C03); the C parser is out of scope (AIOHTTP_NO_EXTENSIONS=1)",
@@ -195,6 +197,10 @@ def toy_encode_member(plain: bytes, mode: int, rng) -> bytes:
     return bytes(out)
 
 
+class Ambiguous(Exception):
+    """The codec library accepts or rejects this stream depending on how it is cut."""
+
+
 class Incomplete(Exception):
     """The stream ends inside a member (every byte so far is acceptable)."""
 
@@ -239,6 +245,8 @@ def safe_ref(fn, *a):
         r = fn(*a)
     except Incomplete:
         return None, "incomplete"
+    except Ambiguous:
+        return None, "ambiguous"
     return (r, "ok") if r is not None else (None, "corrupt")
 
 
@@ -259,8 +267,11 @@ def _members_ref(body: bytes, make):
             out += d.decompress(data)
         except Exception:
             # a library may reject in one shot what it accepts piecewise (zstd: frame content size
-            # mismatch): the stream counts as corrupt only if the byte-wise decode rejects it too
-            return _bytewise_ref(body, make)
+            # mismatch): the stream counts as corrupt only if the byte-wise decode rejects it too;
+            # otherwise what the implementation must do depends on the segmentation: no verdict
+            if _bytewise_ref(body, make) is None:
+                return None
+            raise Ambiguous
         if not d.eof:
             raise Incomplete
         data = d.unused_data
@@ -729,7 +740,7 @@ def verdicts(case, summary, refst):
         elif oc == "stuck":
             out.append(("deadlock", "valid complete body: the consumer is blocked for ever (all bytes were handed to the protocol"
                         if summary.get("delivered_all") else "valid complete body: the consumer is blocked while the transport stays paused / undelivered"))
-        elif oc == "budget":
+        elif oc in ("budget", "hang"):
             pass
         elif oc == "err:ConnClosed" or (summary.get("late_close") and oc in ("err:TransferEncoding", "err:ContentLength")):
             out.append(("lost_at_close", f"valid complete body, the peer closed after sending all of it: {oc[4:]} after {len(rec)} of {len(ref)} bytes"))
@@ -741,6 +752,9 @@ def verdicts(case, summary, refst):
                     "reading, and the consumer stayed blocked until the peer closed (then: " + oc + ")")]
         if not ref.startswith(rec):
             out.append(("not_transparent", "bytes read are not a prefix of the reference decoding"))
+    elif ws == "ok" and rstate == "ambiguous":
+        if oc == "stuck":
+            out.append(("deadlock", "consumer blocked for ever"))
     elif ws == "ok" and ref is None:
         if oc == "eof":
             if rstate == "incomplete":
@@ -872,8 +886,30 @@ def gen_toy_case(rng):
             "codec": "toy" if enc else "identity"}, ref
 
 
+class Hang(Exception):
+    """The implementation did not return within the per-case wall-clock budget."""
+
+
+def _alarm(signum, frame):
+    raise Hang()
+
+
 def run_case(loop, case, rng=None, evs=None):
-    """Runs one case on the implementation; returns (evs, obs, summary, verdict list)."""
+    """Runs one case on the implementation; returns (evs, obs, summary, verdict list).
+    A watchdog turns a livelock inside the implementation into a `hang` verdict."""
+    import signal
+    old = signal.signal(signal.SIGALRM, _alarm)
+    signal.setitimer(signal.ITIMER_REAL, 30.0)
+    try:
+        return _run_case(loop, case, rng, evs)
+    except Hang:
+        return (evs or []), [], {"received": b"", "outcome": "hang"}, [("hang", "the implementation did not return within 30 s of wall-clock time (livelock)")]
+    finally:
+        signal.setitimer(signal.ITIMER_REAL, 0)
+        signal.signal(signal.SIGALRM, old)
+
+
+def _run_case(loop, case, rng=None, evs=None):
     rig = Rig(loop, case["cfg"])
     try:
         if evs is None:
@@ -1078,6 +1114,8 @@ def suite_laws(ctx, n):
         if raw and body and body[0] & 0xF == 8:
             continue
         ref, _state = safe_ref(real_ref_decode, enc, body)
+        if _state == "ambiguous":
+            continue
         if enc == "br":
             h = cu.BrotliDecompressor()
         elif enc == "zstd":
@@ -1172,6 +1210,7 @@ def suite_server(ctx, exe, n):
             wire = chunked_frame(rng, body, False) if chunked else body
             head = b"POST / HTTP/1.1\r\nHost: x\r\n" + (b"Content-Encoding: " + enc.encode() + b"\r\n" if enc else b"") \
                 + (b"Transfer-Encoding: chunked\r\n" if chunked else b"Content-Length: %d\r\n" % len(body)) + b"\r\n"
+            segs = segments(rng, wire)
             rec = {"chunks": [], "result": None, "peak_total": 0}
             bufsize = rng.choice([16, 256, 4096, 2 ** 16])
 
@@ -1200,7 +1239,7 @@ def suite_server(ctx, exe, n):
                 runner, connect = await start_server(app, loop, read_bufsize=bufsize)
                 proto, tr = connect()
                 proto.data_received(head)
-                for s in segments(rng, wire):
+                for s in segs:
                     for _ in range(200):
                         if tr.reading:
                             break
@@ -1248,7 +1287,8 @@ def suite_server(ctx, exe, n):
                 # accumulated before the test fires: at most client_max_size + one readany() result, and one
                 # readany() result is bounded by the reader's marks: high + cap(max_length), low = max(cms, limit)
                 big = max(cms, bufsize)
-                lim = cms + 2 * big + cap_of(enc)(big) + 4096
+                # an uncompressed body reaches the reader one network segment at a time, whatever its size
+                lim = cms + 2 * big + (cap_of(enc)(big) if enc else max(map(len, segs), default=0)) + 4096
                 if acc > lim:
                     ctx.violation(dict(case, kind="max_size_accumulate"), f"max_size_accumulate: read() accumulated {acc} bytes with client_max_size={cms}")
             lines.append("RR %d %s" % (cms, " ".join(fw.hexs(c) for c in rec["chunks"])))
